@@ -192,6 +192,21 @@ pub fn run_op<T: Tbl>(ev: &Ev) -> Res {
 pub fn diff_ev(op: &str, n: usize, a: &[u64], b: &[u64], rng: &mut Rng) -> Ev {
     let size = 1usize << n;
     let i = if n > 0 { rng.below(n) } else { 0 };
+    // for the operations that look at one variable, half of the time the table is independent of exactly
+    // that variable except on one assignment near the end of the table (early exits must not stop too soon)
+    let mut a_owned: Vec<u64> = a.to_vec();
+    if n > 0 && matches!(op, "top_decomposition" | "is_pos_unate" | "is_neg_unate" | "cofactors" | "flip" | "flip_inplace") && rng.bool() {
+        for m in 0..size {
+            if m & (1 << i) != 0 {
+                let src = m & !(1usize << i);
+                let bit = (a_owned[src / 64] >> (src % 64)) & 1;
+                a_owned[m / 64] = (a_owned[m / 64] & !(1u64 << (m % 64))) | (bit << (m % 64));
+            }
+        }
+        let pos = size - 1 - rng.below(std::cmp::min(size, 64));
+        a_owned[pos / 64] ^= 1u64 << (pos % 64);
+    }
+    let a: &[u64] = &a_owned;
     let j = if n > 0 { rng.below(n) } else { 0 };
     let i = if op.starts_with("swap_adjacent") && n > 1 { i % (n - 1) } else { i };
     let k = match rng.below(5) {
